@@ -25,10 +25,10 @@ SPEC_DIR = os.path.join(vlib.SPEC, "gov")
 RCFG = dict(
     accts=["a1", "a2", "a3", "a4", "a5", "a6"],
     cands={"c1": {"key": 1, "id": 1}, "c2": {"key": 2, "id": 2}, "c3": {"key": 2, "id": 3}, "c4": {"key": 3, "id": 4}, "c5": {"key": 3, "id": 5}},
-    issues=["BP", "BPCOUNT", "STAKINGMIN", "NAMEPRICE"],
-    dao_vals={"BPCOUNT": [2, 5], "STAKINGMIN": [5000, 10000, 20000], "NAMEPRICE": [2, 3]},
+    issues=["BP", "BPCOUNT", "STAKINGMIN", "GASPRICE", "NAMEPRICE"],
+    dao_vals={"BPCOUNT": [0, 2, 5, 101], "STAKINGMIN": [0, 5000, 10000, 20000], "GASPRICE": [0, 50, 100], "NAMEPRICE": [0, 2, 3]},
     names=["n1", "n2", "n3"], init_bal=100000, delay=86400,
-    defaults={"BPCOUNT": 3, "STAKINGMIN": 10000, "NAMEPRICE": 1})
+    defaults={"BPCOUNT": 3, "STAKINGMIN": 10000, "GASPRICE": 50, "NAMEPRICE": 1})
 
 
 # candidates of the generation configurations (MC_Governance.tla: C3, C3Key, C3Id)
@@ -96,7 +96,8 @@ def build_graph(gen_out, max_ops):
         v = cache.get(k)
         if v is None:
             st = norm_state(raw)
-            ak = json.dumps(st, sort_keys=True)
+            # a node is the abstract state plus, while a DiscardBlock is still possible, the block-start state it leads back to
+            ak = json.dumps([st, raw.get("bs") or None], sort_keys=True)
             if ak not in sidx:
                 sidx[ak] = len(states)
                 states.append(st)
@@ -111,7 +112,9 @@ def build_graph(gen_out, max_ops):
         (s, sn), (d, _) = sid(src), sid(dst)
         if sn < max_ops:
             testable.add(s)
-        if act["name"] == "NextBlock":
+        if act["name"] == "DiscardBlock":
+            key = (-2, False)
+        elif act["name"] == "NextBlock":
             key = (-1, False)      # with and without restart are the same abstract edge; the harness alternates
         else:
             oi = opidx[json.dumps(norm_op(act), sort_keys=True)]
@@ -152,7 +155,8 @@ def run(c):
                      "TLC 1.8.0"]
     # 1. + 2. design-level check and transition enumeration side by side (both are CPU bound, the machine has 16 cores)
     mc_cfg = "MC_Governance.cfg" if quick else "MC_Governance_big.cfg"
-    gen_cfgs = ["Gen_Governance.cfg", "Gen_Governance_one.cfg"] if quick else ["Gen_Governance_big.cfg", "Gen_Governance_one_big.cfg"]
+    gen_cfgs = (["Gen_Governance.cfg", "Gen_Governance_one.cfg", "Gen_Governance_disc.cfg"] if quick else
+                ["Gen_Governance_big.cfg", "Gen_Governance_one_big.cfg", "Gen_Governance_disc_big.cfg"])
     box = {}
 
     def job(key, cfg, sub, workers):
